@@ -50,7 +50,7 @@ func skeletons(tier string, rng *rand.Rand) []string {
 		add(e)
 	}
 	// non-ASCII skeletons (concrete multi-byte characters next to the hole)
-	for _, e := range []string{"$.ああ", "$['é']", "$.ああ[", "$[?(@.é == 'ü')]", "$.a\xff", "$['\xc3']"} {
+	for _, e := range []string{"$.ああ", "$['é']", "$.ああ[", "$[?(@.é == 'ü')]", "$.a\xff", "$['\xc3']", "$.k\U0010ffff", "$['\U0010ffff']", "$.\U0010fffe.a", "$['\\u001f']", "$[\"\\uffef\"]", "$.テスト x", "$[?(@.a != @.b)]", "$[?((@.a == 1 ) && @.b)]"} {
 		addAny(e)
 	}
 	if cases, err := extractSuiteCases(repoDir()); err == nil {
@@ -185,12 +185,25 @@ func init() {
 				return []*engine.Job{{ID: "c17-grammar-unreadable", Harness: "zzH_missing", Params: map[string]string{"error": err.Error()}}}
 			}
 			// the joint run (real parser + grammar interpreter) costs ~5x a plain Parse: one byte less than C02
-			return parseJobsN("zzH_C17", "c17-", tier, seed, map[string]string{"peg": peg, "start": "expression", "accept_action": "0"}, tierN(tier, 5, 6), tierN(tier, 900, 30000))
+			jobs := parseJobsN("zzH_C17", "c17-", tier, seed, map[string]string{"peg": peg, "start": "expression", "accept_action": "0"}, tierN(tier, 5, 6), tierN(tier, 900, 30000))
+			// documented semantic restrictions, decided on strings with free bytes
+			rj := func(id, restriction, path, holepos string, lo, n int, cfg string) {
+				jobs = append(jobs, &engine.Job{ID: "c17r-" + id, Harness: "zzH_C17_restrict", MaxPaths: 2000000, MaxDepth: 300,
+					Params: map[string]string{"restriction": restriction, "path": path, "holepos": holepos, "lo": fmt.Sprint(lo), "n": fmt.Sprint(n), "config": cfg, "holes": ""}})
+			}
+			rj("two2", "two-current", "$[?(@.aXX@.b)]", "7,8", 7, 2, "")
+			rj("two3", "two-current", "$[?(@.aXXX@.b)]", "7,8,9", 7, 3, "")
+			rj("two2b", "two-current", "$[?(@ XX @)]", "6,7", 6, 2, "")
+			rj("two2f", "two-current", "$.a[?(@.f()XX@[0])]", "11,12", 11, 2, "funcs")
+			rj("script2", "script", "$[(XX)]", "3,4", 3, 2, "")
+			rj("script3", "script", "$[(@XX)]", "4,5", 4, 2, "")
+			rj("script4", "script", "$.a[( XXX )]", "6,7,8", 6, 3, "")
+			return jobs
 		},
 		Bounds:       func(tier string) map[string]interface{} { return parseBoundsN(tier, tierN(tier, 5, 6)) },
 		Stubs:        byteStubs,
 		Assumptions:  append([]string{"the PEG file reader (cmd/verif/peg.go) and the PEG interpreter (harness/pegspec.go) implement standard PEG semantics of the pointlander/peg notation; the documented semantic restrictions beyond the grammar are implemented by the action bodies, which are compared textually between jsonpath.peg and Execute()"}, commonAssumptions...),
-		ExpectLabels: []string{"same-trace-length", "same-trace", "rejected-by-grammar-is-an-error", "error-position-is-end-of-accepted-prefix", "near-is-rest-of-path", "parsed-implies-derivable"},
+		ExpectLabels: []string{"comparison-of-two-current-nodes-is-rejected", "script-is-rejected", "same-trace-length", "same-trace", "rejected-by-grammar-is-an-error", "error-position-is-end-of-accepted-prefix", "near-is-rest-of-path", "parsed-implies-derivable"},
 		Post:         c17Static,
 	})
 }
@@ -227,7 +240,7 @@ func c16Keys() []string {
 		"a", "ab", "a b", "a.b", "a'b", "a\"b", "a\\b", "a\\\\b", "\\n", "\\u0041", "\\", "'", "\"", "\\'", "\\\"",
 		"$", "@", "*", "..", "[0]", "a,b", " ", "a]", "['a']", "?(x)", "a/b", "a\tb", "\x01", "ab\x7f", "\x1f", "a\nb",
 		"é", "aé", "日本", "𝄞", "a𝄞b", "-", "_", "a-b_c", "0", "007", "true", "null", "()", "f()", "a()", "a:b", "1:2", "a=~b", "&&", "||", "!a", "<", "a=='b'",
-		"\\u00e9", "\\ud834\\udd1e", "\\b", "/", "\\/", "~", "`", "{", "}", "^", "#", "%", "a+b", ";",
+		"\\u00e9", "\\ud834\\udd1e", "\\b", "\U0010ffff", "k\U0010ffff", "\uffff", "\U00010000", "\u007f", "\x0f", "a\x1fb", "\u00ff", "/", "\\/", "~", "`", "{", "}", "^", "#", "%", "a+b", ";",
 	}
 }
 
